@@ -1512,6 +1512,12 @@ func (fx *fnExec) storeTarget(x *ssa.Store) string {
 	if pt, ok := cur.Type().Underlying().(*types.Pointer); ok && suffix != "" {
 		return "F." + typeKey(pt.Elem()) + suffix
 	}
+	// an element of a slice: named like the element heap
+	if ia, ok := cur.(*ssa.IndexAddr); ok && suffix == "" {
+		if st, isSl := ia.X.Type().Underlying().(*types.Slice); isSl {
+			return "E." + typeKey(st.Elem())
+		}
+	}
 	return ""
 }
 
